@@ -52,6 +52,15 @@ pub enum QueryPlan {
         #[output]
         present: BufferRef<u8>,
     },
+    /// Null map of `lhs AND rhs` / `lhs OR rhs` under three-valued logic: the result is null unless both operands are
+    /// known or one operand determines the result on its own. A `rhs` of type Null stands for an operand that is always null.
+    KleeneNullMap {
+        lhs: TypedBufferRef,
+        rhs: TypedBufferRef,
+        is_or: bool,
+        #[output]
+        present: BufferRef<u8>,
+    },
     /// Combines a vector with a null map where none of the elements are null.
     MakeNullable {
         data: TypedBufferRef,
@@ -1230,10 +1239,19 @@ impl QueryPlan {
                     QueryPlan::compile_expr(lhs, filter, columns, column_len, planner)?;
                 let (plan_rhs, type_rhs) =
                     QueryPlan::compile_expr(rhs, filter, columns, column_len, planner)?;
-                if type_lhs.decoded == BasicType::Null {
-                    return Ok((plan_rhs, type_rhs));
-                } else if type_rhs.decoded == BasicType::Null {
-                    return Ok((plan_lhs, type_lhs));
+                if type_lhs.decoded == BasicType::Null || type_rhs.decoded == BasicType::Null {
+                    let (plan, t, null_plan) = if type_lhs.decoded == BasicType::Null {
+                        (plan_rhs, type_rhs, plan_lhs)
+                    } else {
+                        (plan_lhs, type_lhs, plan_rhs)
+                    };
+                    if t.decoded != BasicType::Boolean {
+                        return Ok((plan, t));
+                    }
+                    // `NULL OR x` is TRUE where x is TRUE and NULL everywhere else
+                    let present = planner.kleene_null_map(plan, null_plan, true);
+                    let nullable = planner.assemble_nullable(plan.forget_nullability(), present);
+                    return Ok((nullable, Type::bit_vec()));
                 }
                 if type_lhs.decoded != BasicType::Boolean || type_rhs.decoded != BasicType::Boolean
                 {
@@ -2028,6 +2046,12 @@ pub(super) fn prepare<'a>(
         QueryPlan::GetNullMap { nullable, present } => {
             operator::get_null_map(nullable.nullable_any()?, present)
         }
+        QueryPlan::KleeneNullMap {
+            lhs,
+            rhs,
+            is_or,
+            present,
+        } => operator::kleene_null_map(lhs, rhs, is_or, present)?,
         QueryPlan::Floor { input, floor } => operator::floor(input.f64()?, floor.i64()?),
         QueryPlan::FuseNulls { nullable, fused } => operator::fuse_nulls(nullable, fused)?,
         QueryPlan::FuseIntNulls {
